@@ -1105,3 +1105,22 @@ Proof using Hcfg Hwf Hp Hidx.
 Qed.
 
 End Allocated.
+
+(* ------------------------------------------------------------------ C17 *)
+Lemma last_instr_nonempty p lst : last_instr p = Some lst -> p <> [].
+Proof. intros H E. subst. discriminate H. Qed.
+
+Theorem temps_le_peak cfg p nmap q temporaries : wf_ir p -> no_dead p -> consistent nmap p ->
+  allocate cfg p = Ok (q, temporaries) -> (length temporaries <= peak p)%nat.
+Proof.
+  intros Hwf Hnd Hc Hal.
+  destruct (last_instr p) as [lst|] eqn:El; [|unfold allocate in Hal; rewrite El in Hal; discriminate Hal].
+  destruct (allocate_shape cfg p lst nmap Hwf El Hc) as (idx & Hidx & E).
+  rewrite E in Hal. injection Hal as _ <-.
+  destruct (last_instr_split p lst El) as (front & Ep).
+  pose proof (alloc_NInv cfg p lst front idx Hwf Ep Hidx) as HN.
+  assert (H1 : (length (temps (run_naming cfg p idx lst)) <= nvars (scan p))%nat).
+  { apply (temps_le_nvars cfg _ _ _ _ _ HN); [apply scan_bounded|].
+    intros k Hk. apply scan_allocated; [apply wf_ir_wf, Hwf|]. apply Hidx. now apply in_rev. }
+  pose proof (nvars_le_peak p (wf_ir_wf p Hwf) Hnd (last_instr_nonempty p lst El)). lia.
+Qed.
